@@ -43,7 +43,7 @@ class CHECK(Check):
         out = []
         for d, m in self.models.items():
             f = self.fams[d]
-            sents = set(f.s0_pairs())
+            sents = set(f.s0_pairs()) | set(f.s0_sibling_pairs())
             if self.tier == 'thorough':
                 sents |= set(f.s0_edges())
             for s in sorted(sents):
